@@ -1,8 +1,9 @@
 (* C02 — Reported cost and fitness are the true objective of the reported position. *)
 From Coq Require Import String List ZArith Bool.
 From PV Require Import Xnum Select PyLib Argsort Vars Vars_proofs Task_proofs Init Init_proofs Skeleton Skeleton_proofs.
-From PVGen Require Import GenInit Algos Expected.
-From PVBridge Require Import InitBridge AlgoBridge ProvMain.
+From PV Require Import Loop.
+From PVGen Require Import GenInit Algos Expected GenStop.
+From PVBridge Require Import InitBridge AlgoBridge ProvMain LoopBridge.
 
 Theorem C02_init_agent_regenerated : forall W dot FT fitness_of obj t d w raw draw,
   gen_init_agent W dot FT fitness_of obj t d w raw draw = option_map fst (init_agent W dot FT fitness_of obj t d w raw draw).
@@ -27,6 +28,13 @@ Theorem C02_fitness_formula : forall F fadd fdiv fabs fopp fleb fzero fone (inte
   gen_fitness F fadd fdiv fabs fopp fleb fzero fone internal d =
   phi F fadd fdiv fabs fleb fzero fone (match d with MIN => internal | MAX => fopp internal end).
 Proof. intros. rewrite fitness_bridge. apply fitness_is_phi_of_reported. Qed.
+
+(* "expressed in the user's own sign": what Population / OptimizationResult do to an agent when the history is recorded - the REGENERATED closures refine_agent /
+   refine_best_solution - is `report`: the cost as is for a minimisation, negated back for a maximisation, nothing else touched *)
+Theorem C02_reported_sign_regenerated : forall A (cost : A -> xnum) (with_cost : A -> xnum -> A) a d,
+  gen_population_refine A cost with_cost a d = report A cost with_cost d a /\ gen_result_refine A cost with_cost a d = report A cost with_cost d a.
+Proof. intros. split; [apply population_refine_bridge|apply result_refine_bridge]. Qed.
+Print Assumptions C02_reported_sign_regenerated.
 
 Print Assumptions C02_init_agent_regenerated.
 Print Assumptions C02_fitness_regenerated.
